@@ -47,6 +47,6 @@ STREAMS = _a.STREAMS + [
                                ("tc", 6), ("servfail", 8)]}, simprops.mon_c06, quick_n=200, thorough_n=5000, quick_ops=40, thorough_ops=120),
 ]
 
-LEVEL_TEXT = 'Proof: Lean 4 theorems over the channel model: frames handed to connections per query are bounded by servers x tries + 5 (one EDNS downgrade, one TCP upgrade, three bad-cookie resends), deadlines lie within [base, maximum], processing timeouts leaves no expired query and strictly consumes the retry budget; arithmetic of ares_calc_query_timeout incl. overflow is proved separately (C06a theorems). Tie: correspondence on long retry histories with virtual time; monitors: transmissions per token, deadlines vs maximum, UBSan.'
+LEVEL_TEXT = 'Proof: Lean 4 theorems over the channel model: frames handed to connections per query are bounded by servers x tries + 5 (one EDNS downgrade, one TCP upgrade, three bad-cookie resends), deadlines lie within [base, maximum], processing timeouts leaves no expired query and strictly consumes the retry budget; arithmetic of ares_calc_query_timeout incl. overflow is proved separately (C06a theorems) and the deadline interval of the channel model is proved to contain exactly the values that arithmetic can produce (timeouts below 2^23 ms). Tie: correspondence on long retry histories with virtual time; monitors: transmissions per token, deadlines vs maximum, UBSan.'
 LEVEL_NOTE = 'Trusted: Lean kernel; model faithfulness as exercised; virtual clock. Server-list edits while queries are in flight are exercised by the harness but not yet modelled.'
 TECHNIQUE = 'Lean 4 proof (budget invariant, termination measure) over the channel model + differential correspondence with virtual time'
